@@ -3,5 +3,5 @@ import importlib
 import pkgutil
 
 for _m in sorted(m.name for m in pkgutil.iter_modules(__path__)):
-    if _m.startswith("c") and _m[1:3].isdigit():
+    if (_m.startswith("c") and _m[1:3].isdigit()) or _m == "traps":
         importlib.import_module(__name__ + "." + _m)
